@@ -296,17 +296,6 @@ func vfDrain(body io.ReadCloser, closeEarly bool) (data []byte, log []vfReadRec,
 	return data, log, vfErrStr(body.Close())
 }
 
-type vfCollector struct {
-	mu     sync.Mutex
-	traces []Trace
-}
-
-func (c *vfCollector) Complete(t Trace) {
-	c.mu.Lock()
-	defer c.mu.Unlock()
-	c.traces = append(c.traces, t)
-}
-
 // vfObservation is everything the application and the peer can see.
 type vfObservation struct {
 	ReqData     []byte
